@@ -324,10 +324,26 @@ class WebCalls(Calls):
         self.convs = []
         self.conv_objs = []
 
-    def conv(self, recs, delim):
+    def conv(self, recs, delim, how=None):
+        """Build the converter like a user might: constructor, incrementally, or through chain (default
+        delimiter only) -- chosen from the number of converters built so far, so runs are reproducible."""
         import impl
         import curies
-        c = curies.Converter([impl.mk_record(r) for r in recs], delimiter=delim)
+        how = how or ["ctor", "incremental", "ctor", "chain"][len(self.convs) % 4]
+        if how == "chain" and delim != ":":
+            how = "incremental"
+        if how == "ctor":
+            c = curies.Converter([impl.mk_record(r) for r in recs], delimiter=delim)
+        elif how == "incremental":
+            c = curies.Converter([], delimiter=delim)
+            for k, r in enumerate(recs):
+                if k % 2 and r.get("pat") is None:
+                    c.add_prefix(r["p"], r["u"], prefix_synonyms=r.get("ps") or None, uri_prefix_synonyms=r.get("us") or None)
+                else:
+                    c.add_record(impl.mk_record(r))
+        else:
+            parts = [curies.Converter([impl.mk_record(r)]) for r in recs]
+            c = curies.chain(parts) if parts else curies.Converter([])
         self.convs.append(impl.proj_conv(self.I, c))
         self.conv_objs.append(c)
         return len(self.convs)
@@ -486,6 +502,13 @@ def check_c18(tier, seed):
     if cex:
         hs += [s["st"]["h"] for s in cex if s.get("st", {}).get("kind") == "neg"]
     rng.shuffle(hs)
+    # every pattern of (result type the part maps to, q) first, then the rest
+    seen_pat, first, rest = set(), [], []
+    for h in hs:
+        pat = tuple(((t - 3 if 4 <= t <= 6 else t) if t <= 6 else 0, t > 3, q) for t, q in h)
+        (rest if pat in seen_pat else first).append(h)
+        seen_pat.add(pat)
+    hs = first + rest
     base_recs = [{"p": "CHEBI", "u": "http://purl.obolibrary.org/obo/CHEBI_", "ps": ["chebi"],
                   "us": ["https://www.ebi.ac.uk/chebi/searchId.do?chebiId=", "http://identifiers.org/chebi/", "http://sp ace.org/chebi/"], "pat": None},
                  {"p": "GO", "u": "http://purl.obolibrary.org/obo/GO_", "ps": [], "us": [], "pat": None},
@@ -509,7 +532,7 @@ def check_c18(tier, seed):
         parts = []
         seen = set()
         for t, q in h:
-            if MC_TYPES[t] in seen:       # repeated media types are outside the property (which q counts?)
+            if MC_TYPES[t] in seen:       # the SAME media type twice is outside the property (which q counts?)
                 continue
             seen.add(MC_TYPES[t])
             parts.append((MC_TYPES[t], None if q == 1000 and (k + len(parts)) % 2 else q))
@@ -677,8 +700,10 @@ def check_c15(tier, seed):
     I = calls.I
     cmaps = [{1: "a", 2: "A", 3: "1", 4: "2", 58: ":", 9: "n", 10: "m"}, {1: "ß", 2: "ẞ", 3: "é", 4: "\U0001d4b3", 58: ":", 9: "名", 10: "m n"}]
     ctx_recs = [[{"p": "a", "u": "http://e.org/a/", "ps": ["A"], "us": [], "pat": None}],
-                [{"p": "ß", "u": "http://e.org/s/", "ps": ["ẞ"], "us": [], "pat": None}]]
+                [{"p": "ß", "u": "http://e.org/s/", "ps": ["ẞ"], "us": [], "pat": None}],
+                [{"p": "", "u": "http://e.org/default/", "ps": ["a", "é"], "us": [], "pat": None}]]      # empty canonical prefix
     ctx_idx = [calls.conv(r, ":") for r in ctx_recs]
+    ctx_extra = ctx_idx[2]
 
     def add_build(cls, p, ident, name, ci):
         ctx = calls.conv_objs[ci - 1] if ci else None
@@ -774,12 +799,14 @@ def check_c15(tier, seed):
             for p in prefixes:
                 for ident in idents:
                     for name in names:
-                        for ci in (0, ctx_idx[k]):
+                        for ci in (0, ctx_idx[k], ctx_extra):
                             add_build(cls, p, ident, name, ci)
                         for sep in (":", "::", "|"):
                             for glue in (sep, ""):
                                 add_from_curie(cls, p + glue + ident, sep, name, 0)
                     add_from_curie(cls, p + ":" + ident, ":", cm[9], ctx_idx[k])
+                    add_from_curie(cls, p + ":" + ident, ":", cm[9], ctx_extra)
+                    add_validate(cls, p + ":" + ident, ctx_extra)
                     add_validate(cls, p + ":" + ident, 0)
                     add_validate(cls, p + ":" + ident, ctx_idx[k])
                     add_validate(cls, p + ident.replace(":", ""), 0)
